@@ -285,7 +285,8 @@ def scanned_files(repo):
     pats = ['ppci/codegen/*.py', 'ppci/opt/*.py', 'ppci/arch/*/arch.py', 'ppci/arch/arch.py',
             'ppci/arch/arch_info.py', 'ppci/arch/stack.py', 'ppci/graph/*.py', 'ppci/graph/algorithm/*.py',
             'ppci/utils/collections.py', 'ppci/binutils/outstream.py', 'ppci/binutils/objectfile.py',
-            'ppci/arch/*.py', 'ppci/arch/*/*.py', 'ppci/ir.py', 'ppci/irutils/verify.py']
+            'ppci/arch/*.py', 'ppci/arch/*/*.py', 'ppci/ir.py', 'ppci/irutils/verify.py',
+            'ppci/irutils/writer.py', 'ppci/irutils/io.py', 'ppci/lang/python/ir2py.py', 'ppci/wasm/ppci2wasm.py']
     out = []
     for p in pats:
         out += sorted(glob.glob(os.path.join(repo, p)))
@@ -316,6 +317,13 @@ def interprocedural(trees, types):
                 for node in ast.walk(f):
                     if isinstance(node, ast.Return) and node.value is not None and fs.is_set(node.value):
                         types.set_returning.add(f.name)
+                    if isinstance(node, ast.Assign) and fs.is_set(node.value):
+                        # something.X[k] = <set-typed expression>  /  something.X = <set-typed expression>
+                        for tg in node.targets:
+                            if isinstance(tg, ast.Subscript) and isinstance(tg.value, ast.Attribute):
+                                types.dictofset_attrs.add(tg.value.attr)
+                            elif isinstance(tg, ast.Attribute):
+                                types.set_attrs.add(tg.attr)
                     if isinstance(node, ast.Call):
                         fn = node.func.id if isinstance(node.func, ast.Name) else (
                             node.func.attr if isinstance(node.func, ast.Attribute) else None)
